@@ -38,7 +38,7 @@ THEOREMS = [
     # executable right-hand sides (Spec/Lockfiles.lean `expected`), evaluated by Drivers/C03 for every decoded-format case: extract ~ Perm ~ expected
     'Scalibr.Lockfiles.C03_packagelock_expected_model_semantics', 'Scalibr.Lockfiles.C03_pipfile_expected', 'Scalibr.Lockfiles.C03_pkgslock_expected',
     'Scalibr.Lockfiles.C03_gomod_expected_model_semantics',
-    'Scalibr.Lockfiles.C03_pkgslock_project_reported',   # decided witness of the known finding C03/pkgslock-project-reference
+    'Scalibr.Lockfiles.C03_pkgslock_project_skipped',   # decided: a "type": "Project" entry is not reported (former known finding C03/pkgslock-project-reference, fixed)
 ]
 # restatements of model definitions (append / map over the decoded arrays): NOT proof obligations, no property content of their own
 DEFINITIONAL = ['Scalibr.Lockfiles.C03_composer', 'Scalibr.Lockfiles.C03_cargo', 'Scalibr.Lockfiles.C03_poetry']
@@ -57,17 +57,9 @@ def _names(lst):
 
 
 def finding_class(case, fi, fm):
-    """The two defects the stream found earlier (requirements.txt option pattern inside names, packages.lock.json duplicates across target frameworks)
-    were repaired in /repo (fix: 0b3783b7, 455d5282); their witnesses in corpus/C03 are checked strictly.
-    One known finding: packages.lock.json project references ("type": "Project", no "resolved") are reported as packages with an empty version.
-    Class predicate: format pkgslock, nothing missing, and every extra entry has an EMPTY version (any other difference stays a violation)."""
-    t = case.split(' ')
-    if t[0] == 'pkgslock' and fi.get('pk') not in (None, 'err', 'panic', 'hang', 'oom') and fm.get('spec') not in (None, '?'):
-        g, w = _names(fi['pk']), _names(fm['spec'])
-        missing = [x for x in set(w) if w.count(x) > g.count(x)]
-        extra = [x for x in set(g) if g.count(x) > w.count(x)]
-        if not missing and extra and all(x[1] == b'' for x in extra):
-            return 'C03/pkgslock-project-reference'
+    """C03 has no known findings: the three defects the stream found (requirements.txt option pattern inside names, packages.lock.json duplicates across
+    target frameworks, packages.lock.json project references reported as packages with an empty version) were repaired in /repo; their witnesses in
+    corpus/C03 are checked strictly."""
     return None
 
 
